@@ -192,7 +192,10 @@ def check_case(case):
             fails.append(('rejected-valid|numeric|%s' % _numform(lit), '%r rejected' % s))
         elif res[0] == 'ok':
             kind = _NUM_VALUE_CTX.get(ctx)
-            v = float(Decimal(lit))
+            try:
+                v = float(Decimal(lit))
+            except ArithmeticError:  # exponent beyond what decimal accepts
+                v = float(lit)
             if kind and v != float('inf'):
                 exp = {'v': v, '-v': -v, '1+v': 1.0 + v, '1-v': 1.0 - v, 'true': True,
                        'if': (v if v > 0 else 0.0)}[kind]
@@ -331,6 +334,7 @@ def _parts(q, nproc, tier):
     return [
         ('enum', 'seeds', _seed_cases(), 8, False),
         ('enum', 'basic-invalid', G.basic_invalid(), 100, True),
+        ('enum', 'basic-valid', G.basic_valid(), 100, True),
         ('enum', 'numeric', G.numeric_cases(tier), 400, True),
         ('hyp', 'soup', 6000 if q else 150000),
         ('hyp', 'edit', 4000 if q else 100000),
